@@ -278,7 +278,12 @@ macro_rules! impl_cache {
                 let (index, conflict) = self.key_to_hash.build_key(key);
                 self.store
                     .get(&index, conflict)
-                    .and_then(|_| self.store.expiration(&index).map(|time| time.get_ttl()))
+                    .and_then(|guard| {
+                        // release the shard's read lock before taking it again: with the guard
+                        // still alive a writer queued in between deadlocks both sides
+                        drop(guard);
+                        self.store.expiration(&index).map(|time| time.get_ttl())
+                    })
             }
 
             /// `max_cost` returns the max cost of the cache.
@@ -604,7 +609,12 @@ macro_rules! impl_async_cache {
                 let (index, conflict) = self.key_to_hash.build_key(key);
                 self.store
                     .get(&index, conflict)
-                    .and_then(|_| self.store.expiration(&index).map(|time| time.get_ttl()))
+                    .and_then(|guard| {
+                        // release the shard's read lock before taking it again: with the guard
+                        // still alive a writer queued in between deadlocks both sides
+                        drop(guard);
+                        self.store.expiration(&index).map(|time| time.get_ttl())
+                    })
             }
 
             /// `max_cost` returns the max cost of the cache.
